@@ -57,6 +57,13 @@ def extra_cases(tier):
             'pub enum E { /// first', '#[allow(unused)] #[rustfmt::skip] A = -3, #[doc = "b"] #[cfg_attr(all(), allow(dead_code))] B, #[deprecated] C = 0x10, /** block doc */ #[enum_tools(rename = "dd")] #[allow(non_camel_case_types)] D_d = 0b1_0001, }']
     cs.append(RJ.case('c11_foreign_attrs', 'C11', 'foreign-attributes', body, 'accept'))
     cs[-1]['with_prelude'] = True
+    # foreign list attributes on variants whose arguments are not one meta item: several items, a bare literal, nested lists
+    bodyv = ['#[derive(Clone, Copy, EnumTools)]', '#[enum_tools(into, try_from, MIN, MAX, next, iter, names, as_str, from_str)]', '#[repr(u8)]',
+             'pub enum E { #[allow(dead_code, non_camel_case_types)] a_a = 1, #[deprecated(since = "1.0", note = "gone")] B = 2, #[doc(alias = "c1", alias = "c2")] C = 3,',
+             '#[cfg_attr(all(), allow(unused), allow(dead_code))] D = 4, #[allow()] F = 5, #[doc(alias("x", "y"))] G = 6, #[allow(clippy::all, unused)] #[enum_tools(rename = "h")] H = 7,',
+             '#[cfg(all())] I = 8, #[cfg(any(unix, not(unix)))] J = 9, #[expect(dead_code, reason = "probe")] K = 10 }']
+    cs.append(RJ.case('c11_foreign_variant_attrs', 'C11', 'foreign-variant-attributes/multi-item', bodyv, 'accept'))
+    cs[-1]['with_prelude'] = True
     body2 = ['#[derive(Clone, Copy, EnumTools)]', '#[enum_tools(into, MIN, MAX, try_from)]', '#[repr(u64)]', '#[allow(clippy::all)]', 'pub enum E { A = 0o17, B = 1_0, C = 0xFFu64, D = 9_223_372_036_854_775_807, }']
     cs.append(RJ.case('c11_spellings', 'C11', 'literal-spellings', body2, 'accept'))
     body3 = ['#[derive(Clone, Copy, EnumTools)]', '#[enum_tools(into, MIN, MAX, try_from, next)]', '#[repr(i64)]', 'pub enum E { A = -9_223_372_036_854_775_808, B = -0x7FFF_FFFF_FFFF_FFFF, C = -0b1, D = -0o7i64, E = -0 }']
